@@ -135,10 +135,14 @@ func c33Run(c *mc.Ctx, s c33Spec) {
 	c.Eval(fmt.Sprint(s), s.Fault != "")
 	chunkCls := map[int]string{0: "load-command", 1: "chunk1", 2: "chunk-small", 3: "chunk-small", 1000: "chunk-large"}[s.Chunk]
 	var lerr error
+	hookMissing := false
 	pan := safely(func() {
 		if s.Chunk == 0 {
 			cl := session.NewClient(&apiAdapter{w})
 			lerr = cl.VerifLoad("\\load " + key + " /in/data.csv /in/ctl.yaml")
+			if lerr != nil && strings.Contains(lerr.Error(), "export hook unavailable") {
+				hookMissing = true
+			}
 			return
 		}
 		dataFD, err := vos.Open("/in/data.csv")
@@ -187,6 +191,11 @@ func c33Run(c *mc.Ctx, s c33Spec) {
 	if pan != "" {
 		c.Violate("panic|"+s.Fault+"|"+chunkCls, fmt.Sprintf("importing %q panicked: %s", text, pan))
 		c.Outcome("panic")
+		return
+	}
+	if hookMissing {
+		c.Outcome("load-command-path-unavailable") // the export hook did not fit this tree: only the loader path is judged
+		c.Count("load_command_path_unavailable", 1)
 		return
 	}
 	if lerr != nil {
